@@ -1,5 +1,6 @@
 import CoreBGP.Props.PathTie
 import CoreBGP.Model.Peer
+import CoreBGP.Model.Server
 /-! Path tie for the peer manager's helpers (`peer.go`: `handleStateTransition`, `handleError`, `enableFSM`, `disableFSM`,
 `sendTransitionToFSM`, `start`, `stop`) on the regenerated control paths: the instruction lists of the L2 model
 (`Model.Peer.expandHandle`) against what every path of `handleStateTransition` does, for every manager state, direction and
@@ -152,6 +153,84 @@ theorem handle_error_paths :
       p.calls.drop (p.calls.length - 4) = ["p.disableFSM", "p.disableFSM", "p.updateStartupDelay", "set p.inHoldDown=true"]) ∧
     (∀ p ∈ pathsOf "peer.handleError", p.guards.contains ("nerr.dampPeer()", true) = false →
       p.calls.all (fun c => c != "p.disableFSM" && c != "p.updateStartupDelay" && c != "set p.inHoldDown=true") = true) := by
+  decide
+
+/-- an error that does not damp leaves the peer's damping state alone altogether (no timestamp, no delay, no hold-down) -/
+theorem non_damping_touches_nothing :
+    ∀ p ∈ pathsOf "peer.handleError", p.guards.contains ("nerr.dampPeer()", true) = false →
+      p.calls.all (fun c => c == "logf" || c == "errors.As" || c == "nerr.dampPeer") = true := by
+  decide
+
+/-! ### `updateStartupDelay` -/
+
+def amnesiaGuard : String := "p.lastProtoError!=nil&&(time.Since(*p.lastProtoError)>=errorAmnesiaTime)"
+
+/-- an assignment to `p.startupDelay` -/
+inductive DS where
+  | zero | minTime | double
+deriving DecidableEq, Repr, Inhabited
+
+/-- the assignments to `p.startupDelay` on a path, in order -/
+def delaySets (p : CodePath) : List DS :=
+  p.calls.filterMap fun c =>
+    if c = "set p.startupDelay=0" then some DS.zero
+    else if c = "set p.startupDelay=errorDelayMinTime" then some .minTime
+    else if c = "set p.startupDelay=min(2*p.startupDelay,errorDelayMaxTime)" then some .double
+    else none
+
+def applyDS (d : Nat) : List DS → Nat
+  | [] => d
+  | .zero :: r => applyDS 0 r
+  | .minTime :: r => applyDS Gen.errorDelayMinTime r
+  | .double :: r => applyDS (min (2 * d) Gen.errorDelayMaxTime) r
+
+def applyDelaySets (d : Nat) (p : CodePath) : Nat := applyDS d (delaySets p)
+
+def envDelay (amnesia positive : Bool) : GEnv := fun g =>
+  if g = amnesiaGuard then some amnesia else if g = "p.startupDelay>0" then some positive else none
+
+def expectedSets (amnesia positive : Bool) : List DS :=
+  (if amnesia then [DS.zero] else []) ++ [if positive then DS.double else DS.minTime]
+
+/-- the code side: which assignments each combination of the two conditions selects -/
+theorem code_delay_sets :
+    ∀ a ∈ [false, true], ∀ pos ∈ [false, true],
+      (selected "peer.updateStartupDelay" (envDelay a pos)).isEmpty = false ∧
+      (selected "peer.updateStartupDelay" (envDelay a pos)).all (fun p => delaySets p == expectedSets a pos) = true := by
+  decide
+
+/-- **the back-off step is what the code's paths assign**: for every current delay and every time since the last protocol
+error, every control path of `updateStartupDelay` selected by the two conditions (the second evaluated on the delay as the
+first left it) assigns, in order, exactly the model's next delay -/
+theorem startup_delay_follows_code (d : Nat) (gap : Option Nat) :
+    let amnesia := match gap with | some g => decide (g ≥ Gen.errorAmnesiaTime) | none => false
+    let d₁ := if amnesia then 0 else d
+    selected "peer.updateStartupDelay" (envDelay amnesia (decide (d₁ > 0))) ≠ [] ∧
+    ∀ p ∈ selected "peer.updateStartupDelay" (envDelay amnesia (decide (d₁ > 0))),
+      applyDelaySets d p = Model.updateStartupDelay d gap := by
+  intro amnesia d₁
+  have hb : ∀ b : Bool, b ∈ [false, true] := by intro b; cases b <;> simp
+  obtain ⟨hne, hall⟩ := code_delay_sets amnesia (hb _) (decide (d₁ > 0)) (hb _)
+  refine ⟨by intro h; rw [h] at hne; simp at hne, ?_⟩
+  intro p hp
+  have hp' := beq_iff_eq.mp (List.all_eq_true.mp hall p hp)
+  unfold applyDelaySets
+  rw [hp']
+  cases gap with
+  | none =>
+    simp only [amnesia, d₁, expectedSets, Model.updateStartupDelay]
+    by_cases hd : d > 0 <;> simp [hd, applyDS]
+  | some g =>
+    simp only [amnesia, d₁, expectedSets, Model.updateStartupDelay]
+    by_cases hg : g ≥ Gen.errorAmnesiaTime
+    · simp [hg, applyDS]
+    · by_cases hd : d > 0 <;> simp [hg, hd, applyDS]
+
+theorem startup_delay_bookkeeping :
+    ∀ p ∈ pathsOf "peer.updateStartupDelay",
+      p.calls.contains "set p.lastProtoError=&lastProtoError" = true ∧
+      p.calls.drop (p.calls.length - 4) =
+        ["p.startupDelayTimer.Stop", "time.NewTimer(p.startupDelay)", "set p.startupDelayTimer=time.NewTimer(p.startupDelay)", "logf"] := by
   decide
 
 /-- `sendTransitionToFSM` can always be abandoned for the manager's own stop; `peer.stop` closes once and joins the manager -/
